@@ -36,6 +36,7 @@ type CheckSpec struct {
 	Jobs          map[string][]JobSpec `json:"jobs"`
 	RequiredCover []string             `json:"required_cover"`
 	CrossEvery    map[string]int       `json:"cross_every,omitempty"`
+	MaxWallS      map[string]int       `json:"max_wall_s,omitempty"`
 	Selftest      []string             `json:"selftest"`
 	QueryTimeoutS map[string]int       `json:"query_timeout_s"`
 	BoundsText    map[string]string    `json:"bounds_text"`
